@@ -227,6 +227,52 @@ def rule_bnaf_tree(prog, rep):
               f"log-Jacobian callable is {show(f, 240) if f else None}")
 
 
+def rule_bnaf_raw_masked(prog, rep, R):
+    """Triangularity for EVERY value of the raw weight (not just the initial one): each occurrence of the raw
+    linear.weight in the replacement weight sits directly under a wrappers.Where node with the block-lower-
+    triangular mask as condition and 0 as the alternative, so the mask is re-imposed at every unwrap.  A mask
+    applied once at construction (jnp.where) leaves the above-diagonal entries trainable."""
+    rep.rule(R, "block_autoregressive_linear: every occurrence of the raw weight is the if_true child of a "
+                "wrappers.Where(block_tril_mask, ., 0) node (mask re-applied at unwrap, for every raw value): the layer "
+                "stays block lower triangular, which the log-det (product of diagonal blocks) and the coordinate-wise "
+                "bisection inverse rely on", minimum=1)
+    m, fn = prog.func(BN + "block_autoregressive_linear")
+    site = f"{m.relpath}:{fn.lineno}"
+    noin = {"flowjax.masks.block_diag_mask", "flowjax.masks.block_tril_mask"}
+    KEY, N, BS = ("sym", "KEY"), ("sym", "N"), ("sym", "BS")
+    got = Interp(prog, no_inline=noin).eval_function(BN + "block_autoregressive_linear", [KEY], {"n_blocks": N, "block_shape": BS})
+    g0 = got[1][0] if got[0] == "tuple" and got[1] else got
+    rp = dict(g0[3]).get("replace") if g0[0] == "call" and g0[1] == ("ext", "equinox.tree_at") else None
+    if rp is None:
+        rep.undecided(R, site, "block_autoregressive_linear:raw-weight-masked", f"layer is {show(g0, 160)}, not a tree_at replacement")
+        return
+    tril = ("call", ("ext", "flowjax.masks.block_tril_mask"), (), (("block_shape", BS), ("n_blocks", N)))
+    WHERE = ("ext", "flowjax.wrappers.Where")
+    def raw(t):
+        return t[0] == "attr" and t[2] == "weight"
+    masked = []
+
+    def fold(t):
+        if t[0] == "call" and t[1] == WHERE:
+            kw = dict(t[3])
+            a = list(t[2])
+            cond = kw.get("cond", a[0] if a else None)
+            it_ = kw.get("if_true", a[1] if len(a) > 1 else None)
+            if_ = kw.get("if_false", a[2] if len(a) > 2 else None)
+            if cond is not None and it_ is not None and if_ == C(0) and raw(it_) and equal(cond, tril):
+                masked.append(t)
+                return ("sym", "MASKED_RAW_WEIGHT")
+        return None
+    rest = subst(rp, fold)
+    bad = [t for t in walk(rest) if raw(t)]
+    n = len(masked) + len(bad)
+    rep.check(n > 0 and not bad, R, site, "block_autoregressive_linear:raw-weight-masked",
+              f"{n} occurrence(s) of the raw weight, each directly under Where(block_tril_mask, ., 0)",
+              f"the raw weight occurs {n} time(s); {len(bad)} not directly under a wrappers.Where(block_tril_mask, ., 0) node "
+              f"in {show(rp, 240)}: the entries above the block diagonal are trainable, the layer is not triangular after "
+              f"an optimiser step, so its log-det and its bisection inverse are wrong")
+
+
 def rule_where_wrapper(prog, rep):
     """Every mask in the repo is applied through wrappers.Where: its unwrap must select if_true where cond holds."""
     c = prog.cls("flowjax.wrappers.Where")
